@@ -4,6 +4,9 @@ import (
 	. "verif/harness/ref"
 )
 
+// MsgGlobals are the globals the messages of MsgStress may print.
+var MsgGlobals = map[string]Value{"msgs.FLAG": I(-5), "MX": S("[global MX]"), "lib.util.userName": S("[global userName]")}
+
 // MsgStress builds a message whose placeholders deliberately collide on their
 // base names: $a.x / $b.x / $x / $x_1 / $x_2, the same variable with
 // different directives, HTML tags of every naming class, repeated
@@ -30,6 +33,10 @@ func (g *G) MsgStress(allowPlural bool) []Cmd {
 		{expr: &Expr{Op: "*", Args: []*Expr{{Op: "+", Args: []*Expr{{Op: "int", I: 1}, {Op: "int", I: 2}}}, {Op: "int", I: 3}}}},
 		{expr: &Expr{Op: "+", Args: []*Expr{{Op: "int", I: 1}, {Op: "*", Args: []*Expr{{Op: "int", I: 2}, {Op: "int", I: 3}}}}}},
 		{expr: str("lit")},
+		// compile-time globals (MsgGlobals must be defined in the bundle)
+		{expr: &Expr{Op: "global", Name: "msgs.FLAG"}},
+		{expr: &Expr{Op: "global", Name: "MX"}},
+		{expr: &Expr{Op: "global", Name: "lib.util.userName"}},
 		// data references that do not end in a key (no name of their own: XXX as a placeholder, NUM as a plural value)
 		{let: Cmd{K: "let", Var: "nums", Expr: &Expr{Op: "list", Args: []*Expr{{Op: "int", I: 1}, {Op: "int", I: 3}}}}, expr: &Expr{Op: "ref", Name: "nums", Access: []Access{{Kind: "index", Index: 0}}}},
 		{let: Cmd{K: "let", Var: "nums", Expr: &Expr{Op: "list", Args: []*Expr{{Op: "int", I: 1}, {Op: "int", I: 3}}}}, expr: &Expr{Op: "ref", Name: "nums", Access: []Access{{Kind: "expr", Expr: &Expr{Op: "int", I: 1}}}}},
@@ -43,7 +50,7 @@ func (g *G) MsgStress(allowPlural bool) []Cmd {
 	// suffixed names of other collision groups (x / x1 / x_1 / x_1_1 ...), and so that every kind of
 	// word boundary occurs (toDoItem, userIdNo, URLPath, n2x, leading and trailing underscores).
 	// Each message draws from two stems only; a variable is $ident or a key of one of three maps.
-	stems := []string{"x", "name", "toDo", "userIdNo", "aBcDe", "URLPath", "n2x", "v"}
+	stems := []string{"x", "name", "toDo", "userIdNo", "aBcDe", "URLPath", "n2x", "v", "a__b__c", "x___y____z", "is__a__bot", "a_b_c", "aB__cD_1__e"}
 	sufs := []string{"", "", "1", "_1", "_2", "_1_1", "2", "12", "_", "X", "Id", "__3"}
 	myStems := []string{stems[g.Intn(len(stems))], stems[g.Intn(len(stems))]}
 	if g.Chance(60) {
@@ -117,7 +124,7 @@ func (g *G) MsgStress(allowPlural bool) []Cmd {
 		case g.Chance(30):
 			// a plural value without a name of its own - the same reference may also be printed in the cases
 			lets = lets[:len(lets)-1]
-			p := pool[len(pool)-6+g.Intn(3)]
+			p := pool[len(pool)-6+g.Intn(3)] // (the three nameless references)
 			use(p)
 			pl.Expr = p.expr
 		}
